@@ -13,7 +13,9 @@ def hexList (xs : List Str) : String :=
 def sb (xs : List String) : List Str := xs.map String.toList
 def sandboxLinks : List (List Str × List Str) := [(sb ["S", "root", "link"], sb ["S", "outside"])]
 def sandboxFiles : List (List Str) :=
-  [sb ["S", "root", "in", "f"], sb ["S", "root", "f"], sb ["S", "outside", "secret"], sb ["S", "root-sibling", "f"]]
+  [sb ["S", "root", "in", "f"], sb ["S", "root", "f"], sb ["S", "outside", "secret"], sb ["S", "root-sibling", "f"],
+   -- single components containing backslashes (an ordinary byte on POSIX)
+   sb ["S", "root", "in", "..\\f"], sb ["S", "root", "..\\outside\\secret"], sb ["S", "root", "in\\f"]]
 
 def step (line : String) : String :=
   match (line.trimAscii.toString.splitOn " ").filter (· ≠ "") with
